@@ -43,6 +43,25 @@ fn flush_single(r: &mut Rep, a: &Args) {
     }
 }
 
+/// 70,000 flushes in a row (same and changing addresses, tokens, flush_all, flush_pcid): call k behaves like call 1
+fn repetition(r: &mut Rep) {
+    for k in 0..70_000u64 {
+        let v = crate::b64::sext48(k.wrapping_mul(0x9e37_79b9_7f4a_7c15) & !0xfff);
+        let pg = Page::<Size4KiB>::containing_address(VirtAddr::new(v));
+        let (_, e1) = one(false, || tlb::flush(VirtAddr::new(0x7000)));
+        let (_, e2) = one(false, || MapperFlush::new(pg).flush());
+        cpu().cr[3] = 0x5000 | (k & 0x18);
+        let (_, e3) = one(false, || tlb::flush_all());
+        let pc = Pcid::new((k % 4096) as u16).unwrap();
+        let (_, e4) = one(false, || unsafe { tlb::flush_pcid(InvPcidCommand::Single(pc)) });
+        r.transitions += 4;
+        if e1 != [Ev::Invlpg(0x7000)] || e2 != [Ev::Invlpg(v)] || e3 != [Ev::ReadCr(3, 0x5000 | (k & 0x18)), Ev::WriteCr(3, 0x5000 | (k & 0x18))] || e4 != [Ev::Invpcid(1, k % 4096, 0)] {
+            r.viol("C11|flush|call-number-k-differs-from-the-first-call", &format!("flushrepeat {}", k), &format!("{:x?} {:x?} {:x?} {:x?}", e1, e2, e3, e4));
+            break;
+        }
+    }
+}
+
 pub fn flush_all_case(r: &mut Rep, cr3: u64, step: bool) {
     for which in 0..2 {
         cpu().cr[3] = cr3;
@@ -251,6 +270,58 @@ pub fn invlpgb_case<S: x86_64::structures::paging::page::NotGiantPageSize>(r: &m
     }
 }
 
+/// ranges that need more requests than the event log holds (2^32 pages and more): every request is checked as it is executed
+pub fn invlpgb_huge<S: x86_64::structures::paging::page::NotGiantPageSize>(r: &mut Rep, inv: &Invlpgb, count_max: u16, start: u64, npages: u64, pcid: Option<u16>, asid: Option<u16>) {
+    use crate::simcpu::InvStream;
+    let size = S::SIZE;
+    let case = format!("invlpgbhuge {} max={} start={:#x} n={:#x} pcid={:?} asid={:?}", S::DEBUG_STR, count_max, start, npages, pcid, asid);
+    let endpos = pos(start) as u128 + npages as u128 * size as u128;
+    if endpos >= 1u128 << 48 {
+        return;
+    }
+    let end = from_pos(endpos as u64);
+    let range = Page::<S>::range(Page::from_start_address(VirtAddr::new(start)).unwrap(), Page::from_start_address(VirtAddr::new(end)).unwrap());
+    unsafe { crate::simcpu::RUNAWAY = Some(("C11".into(), "C11|Invlpgb::flush|does-not-terminate".into(), case.clone())) };
+    cpu().clear_events();
+    cpu().inv_stream = InvStream { on: true, size, count_max: count_max as u32, exp_low: 1 | ((pcid.is_some() as u64) << 1) | ((asid.is_some() as u64) << 2), exp_edx: (asid.unwrap_or(0) as u32) | ((pcid.unwrap_or(0) as u32) << 16), cur: pos(start) as u128, ..InvStream::OFF };
+    let res = run_fault(|| {
+        let mut b = inv.build().pages(range);
+        if let Some(p) = pcid {
+            unsafe { b.pcid(Pcid::new(p).unwrap()) };
+        }
+        if let Some(a) = asid {
+            unsafe { b.asid(a).ok() };
+        }
+        b.flush();
+    });
+    let st = cpu().inv_stream;
+    cpu().inv_stream = InvStream::OFF;
+    r.ev(true);
+    r.transitions += st.n;
+    if res.is_err() {
+        r.viol("C11|Invlpgb::flush|panics", &case, "");
+        return;
+    }
+    if !cpu().evs().is_empty() {
+        r.viol("C11|Invlpgb::flush|executes-other-instruction", &case, &format!("{:x?}", &cpu().evs()[..1]));
+    }
+    if st.bad_bits > 0 {
+        r.viol("C11|Invlpgb::flush|option-bits-wrong", &case, &format!("{} of {} requests; first {:x?}", st.bad_bits, st.n, st.first_bad));
+    }
+    if st.bad_count > 0 {
+        r.viol("C11|Invlpgb::flush|count-exceeds-the-processor-maximum", &case, &format!("{} of {} requests; first {:x?}", st.bad_count, st.n, st.first_bad));
+    }
+    if st.bad_addr > 0 {
+        r.viol("C11|Invlpgb::flush|address-not-a-canonical-page-start", &case, &format!("{} of {} requests; first {:x?}", st.bad_addr, st.n, st.first_bad));
+    }
+    if st.bad_gap > 0 {
+        r.viol("C11|Invlpgb::flush|request-extends-across-the-non-canonical-gap", &case, &format!("{} of {} requests; first {:x?}", st.bad_gap, st.n, st.first_bad));
+    }
+    if st.cur < endpos {
+        r.viol("C11|Invlpgb::flush|requests-do-not-cover-the-range", &case, &format!("covered up to position {:#x} of {:#x}; {} requests", st.cur, endpos, st.n));
+    }
+}
+
 fn invlpgb_all(r: &mut Rep, a: &Args) {
     let maxima: Vec<u16> = if a.thorough() { vec![0, 1, 2, 3, 7, 8, 255, 4095, 65534, 65535] } else { vec![0, 1, 3, 7, 255, 65535] };
     let mut cfg_no = 0usize;
@@ -364,6 +435,14 @@ fn invlpgb_all(r: &mut Rep, a: &Args) {
                     }
                 }
             }
+            // ranges of 2^32 pages and more (the remaining length no longer fits 32 bits), lower half, across the gap, upper half
+            if cm == 65535 || (a.thorough() && cm >= 4095) {
+                for (st, n) in [(0u64, 1u64 << 32), (0x1000, (1 << 32) + 5), (from_pos((1u64 << 47) - (1u64 << 43)), (1 << 32) + 70_000), (from_pos(1u64 << 47), (1 << 33) + 1)] {
+                    invlpgb_huge::<Size4KiB>(r, &inv, cm, st, n, None, None);
+                }
+                invlpgb_huge::<Size4KiB>(r, &inv, cm, 0x7000, (1 << 32) + 1, Some(0x5a5), Some(3));
+                invlpgb_huge::<Size2MiB>(r, &inv, cm, 0, (1 << 26) + 3, None, None);
+            }
             if a.thorough() && cm >= 255 {
                 invlpgb_case::<Size4KiB>(r, &inv, cm, (1u64 << 47) - 70_000 * 4096, 70_000 + 10, Opts { pre: 0, pcid: None, asid: None, global: false, final_only: false, nested: false, noise: 0 });
             }
@@ -398,6 +477,7 @@ pub fn run(a: &Args) {
             "flushall" => flush_all_case(&mut r, h(t[1]), t[2] == "true"),
             "pcid" => pcid_case(&mut r, t[1].parse().unwrap(), h(t[2]), t[3] == "true"),
             "flush" | "tokflush" | "tokpage" => flush_single(&mut r, a),
+            "flushrepeat" => repetition(&mut r),
             _ => invlpgb_all(&mut r, &Args { prop: "C11".into(), tier: a.tier.clone(), shard: 0, nshards: 1, replay: None, extra: vec![] }),
         }
         r.emit();
@@ -406,6 +486,9 @@ pub fn run(a: &Args) {
     if a.shard == 0 {
         guarded(&mut r, "C11|tlb::flush|unexpected-panic", || "flush".into(), |r| flush_single(r, a));
         guarded(&mut r, "C11|tlb::flush_all|unexpected-panic", || "flushall".into(), |r| flush_all(r, a));
+    }
+    if a.shard == 1 % a.nshards {
+        guarded(&mut r, "C11|flush|unexpected-panic", || "flushrepeat".into(), |r| repetition(r));
     }
     // all 4096 PCIDs x 4 kinds
     let addrs = canon();
